@@ -5,6 +5,7 @@ import Sqfs.Model.EncMeta
 import Sqfs.Model.EncXattr
 import Sqfs.Model.IdTable
 import Sqfs.Model.EncTree
+import Sqfs.Spec.PackSpec
 /-!
 `sqfsmodel c01 [units]` — line protocol of the C01 unit-level correspondence; the same lines go to
 `harness/h_c01u.c` (the real library) and the two outputs must be identical.
@@ -417,6 +418,46 @@ def opTree (toks : List String) : String :=
 
 end Tree
 
+
+/-- `export <pre> <inum/ref>… <root>` -/
+def opExport (toks : List String) : String :=
+  match toks with
+  | pre :: rest =>
+    match nat? pre, rest.mapM parsePair with
+    | some pre, some pairs =>
+      match pairs.reverse with
+      | [] => "bad-op"
+      | root :: revEntries =>
+        let entries := revEntries.reverse
+        if entries.any (fun e => e.1 < 1) then s!"add {errArgInvalid}"
+        else if root.1 < 1 then s!"err {errArgInvalid}"
+        else
+          let tbl := (Sqfs.Pack.exportTable (entries.map (fun e => (e.1, UInt64.ofNat e.2))) (root.1, UInt64.ofNat root.2)).map (·.toNat)
+          let file0 := List.replicate pre (0xEE : UInt8)
+          let (file, start) := exportTableWrite rawCmp file0 tbl
+          let rd := exportTableRead rawUnc file tbl.length start pre start
+          s!"start={start} file={toHexTok (file.drop pre)} rd " ++ showStatus rd showNats
+    | _, _ => "bad-op"
+  | _ => "bad-op"
+
+open Sqfs.Writer in
+/-- `super <bs> <mtime> <comp> <inodes> <flags> <ids> <rootref> <bytes_used> <id> <xattr> <inode> <dir> <frag> <export>` -/
+def opSuper (toks : List String) : String :=
+  match toks.mapM nat? with
+  | some [bs, mt, comp, ic, fl, idc, rr, bu, ids, xs, is, ds, fs, es] =>
+    match superInit bs mt comp with
+    | .error e => s!"init {e}"
+    | .ok s0 =>
+      let s : Super := { s0 with inodeCount := ic, flags := fl, idCount := idc, rootRef := rr, bytesUsed := bu, idStart := ids,
+                                 xattrStart := xs, inodeStart := is, dirStart := ds, fragStart := fs, exportStart := es }
+      let bytes := s.encode
+      let rd := match superRead bytes with
+        | .error e => s!"{e}"
+        | .ok r => s!"0 {r.magic} {r.inodeCount} {r.mtime} {r.blockSize} {r.fragCount} {r.compId} {r.blockLog} {r.flags} {r.idCount} " ++
+            s!"{r.vMajor} {r.vMinor} {r.rootRef} {r.bytesUsed} {r.idStart} {r.xattrStart} {r.inodeStart} {r.dirStart} {r.fragStart} {r.exportStart}"
+      s!"init 0 bytes={toHexTok bytes} rd {rd}"
+  | _ => "bad-op"
+
 def handle (line : String) : String :=
   match words line with
   | "inode" :: r => opInode r
@@ -433,6 +474,8 @@ def handle (line : String) : String :=
   | "xattr" :: r => opXattr r
   | "xsets" :: r => opXsets r
   | "tree" :: r => opTree r
+  | "export" :: r => opExport r
+  | "super" :: r => opSuper r
   | _ => "bad-op"
 
 def run (_args : List String) : IO Unit := do
